@@ -28,7 +28,7 @@ def systems(pal=0):
     S = lambda n, v=5.0, **kw: dict(dict(n=n, k="Source", a=dict(vo=v, rs=0.1), p=[], g="", r=""), **kw)
     out["tables"] = dict(name="tables", phases=dict(PH2), comps=[
         S("S1", r="VIN", g="in", lim={"io": [0.0, 0.01]}), mk("C1", "CV1", ["VIN"], r="V2", g="dc", pc=["a"]), mk("C2", "CV2", ["S1"], g="dc"),
-        mk("G1", "LR2", ["C2"], lim={"vi": [0.0, 1.0]}), mk("V1", "VL1", ["V2"]), mk("P1", "PS1", ["C2"]), mk("L1", "PL", ["G1"], pc={"a": 0.05}),
+        mk("G1", "LR2", ["C2"], lim={"vi": [6.0, 0.5], "vo": [-13.0, -11.0]}), mk("V1", "VL1", ["V2"]), mk("P1", "PS1", ["C2"]), mk("L1", "PL", ["G1"], pc={"a": 0.05}),
         mk("L2", "ILx", ["V1"]), mk("L3", "RO", ["P1"]), mk("D1", "RD1", ["S1"]), mk("L4", "IL", ["D1"]), mk("M1", "RM1", ["S1"]), mk("L5", "PLx", ["M1"])])
     m = mux_spec([("S", "live"), ("SC", "inact-reg"), ("SH", "live")], pal, True, rails=True, by_rail=True, below="deep")
     out["mux3"] = m
